@@ -176,14 +176,14 @@ type edit struct {
 
 func intType() schemagen.TypeExpr { return schemagen.TypeExpr{Kind: "ref", Name: "int"} }
 
-var safeKinds = []string{"identity", "append-masked-field", "append-masked-field", "append-union-constructor", "add-type", "add-function-with-mask"}
+var safeKinds = []string{"identity", "append-masked-field", "append-masked-field", "append-two-fields-one-new-bit", "append-union-constructor", "add-type", "add-function-with-mask"}
 
 // applySafe applies one documented safe edit; returns false if no candidate position exists.
 func applySafe(s *schemagen.Schema, e edit, seq int) bool {
 	switch e.Kind {
 	case "identity":
 		return true
-	case "append-masked-field":
+	case "append-masked-field", "append-two-fields-one-new-bit":
 		type cand struct {
 			c *schemagen.Comb
 			m string
@@ -214,6 +214,9 @@ func applySafe(s *schemagen.Schema, e edit, seq int) bool {
 		}
 		types := []schemagen.TypeExpr{intType(), {Kind: "ref", Name: "string"}, {Kind: "ref", Name: "true"}, {Kind: "ref", Name: "vector", Args: []schemagen.Arg{{Type: &schemagen.TypeExpr{Kind: "ref", Name: "long"}}}}}
 		k.c.Fields = append(k.c.Fields, schemagen.Field{Name: fmt.Sprintf("added%d", seq), Mask: &schemagen.MaskRef{Src: k.m, Bit: bit}, Type: types[e.Sub%len(types)]})
+		if e.Kind == "append-two-fields-one-new-bit" { // several new fields may share one previously unused bit
+			k.c.Fields = append(k.c.Fields, schemagen.Field{Name: fmt.Sprintf("added%dtwin", seq), Mask: &schemagen.MaskRef{Src: k.m, Bit: bit}, Type: types[(e.Sub+1)%len(types)]})
+		}
 		return true
 	case "append-union-constructor":
 		var unions []string
